@@ -297,6 +297,9 @@ func driveZoom(t *Tracer, r Rng, n int) {
 }
 
 func evChangeZoomExt(t *Tracer, w Win, ids []ID, h, v int64) {
+	if !(w.validIDs(ids...)) {
+		return // outside the documented domain: not a case
+	}
 	if zoomTooBig(ids, h, v) {
 		return
 	}
@@ -317,6 +320,9 @@ func evChangeZoomExt(t *Tracer, w Win, ids []ID, h, v int64) {
 }
 
 func evChangeZoomSp(t *Tracer, w Win, ids []ID, z int64) {
+	if !(w.validIDs(ids...)) {
+		return // outside the documented domain: not a case
+	}
 	if zoomTooBig(ids, z, z) {
 		return
 	}
